@@ -153,15 +153,25 @@ def r14_2(ctx):
     for ch, q, subj in (("visible", f"{KS}:get_visible.<locals>.handle_node", "result"), ("defaults", f"{KS}:get_sym_default_value_dict", "defaults"),
                         ("ranges", f"{KS}:get_ranges.<locals>.handle_node", "ranges_dict"),
                         ("values", "kconfgen.core:get_json_values.<locals>.write_node", "config_dict")):
-        f = repo.func(q)
-        ctx.analysed(q)
+        # the function that fills the snapshot: the named per-node helper, or - when it was inlined into its caller's
+        # loop - the enclosing getter itself
+        cands = [q] + ([q.rsplit(".<locals>.", 1)[0]] if ".<locals>." in q else [])
+        f = None
+        for cq in cands:
+            if repo.has_func(cq):
+                g_ = repo.func(cq)
+                if any(isinstance(n, ast.Assign) and isinstance(n.targets[0], ast.Subscript) and ast.unparse(n.targets[0].value) == subj
+                       and repo.enclosing_func(n) is g_ for n in ast.walk(g_.node)):
+                    f = g_
+                    break
+        if f is None:
+            raise AnchorError(f"{q}: no function storing into {subj} found")
+        ctx.analysed(f.qual)
         res = Resolver(f.node)
         fl = Flow(f.node, resolver=res).run()
         stores = [n for n in ast.walk(f.node) if isinstance(n, ast.Assign) and isinstance(n.targets[0], ast.Subscript)
-                  and ast.unparse(n.targets[0].value) == subj]
-        if not stores:
-            raise AnchorError(f"{f.short}: no store into {subj}")
-        construct = f"{f.short}/key set of channel `{ch}` does not depend on the configuration"
+                  and ast.unparse(n.targets[0].value) == subj and repo.enclosing_func(n) is f]
+        construct = f"snapshot getter of channel `{ch}`/key set does not depend on the configuration"
         # the key is present iff one of the stores runs: OR over the stores' guard sets. It must cover every item of the right
         # type (for `values`: every item with a non-empty config_string - the property gives the other ones a meaning).
         import itertools
